@@ -317,7 +317,7 @@ class EffectivePotentialNoResum(EffectivePotential, ABC):
         # m2 is shape (len(T), 5), so to divide by T we need to transpose T,
         # or add new axis in this case.
         # But make sure we don't modify the input temperature array here.
-        temperature = np.asanyarray(temperature)
+        temperature = np.asanyarray(temperature, dtype=float)
 
         temperatureSq = temperature**2 + self.SMALL_NUMBER
 
